@@ -466,7 +466,7 @@ pub fn wrap_minusplus_block<'c: 'a, 'a>(
             .next()
             .unwrap_or_else(|| panic!("bad diff alignment {}", errhint));
 
-        let (start, extended_to) = wrap_if_too_long(
+        let (start, _) = wrap_if_too_long(
             config,
             wrapped_syntax,
             syntax_line.clone(),
